@@ -48,6 +48,8 @@ def default_symbols(tape):
     syms["f"] = ["Fun", [INT], INT]
     syms["g"] = ["Fun", [INT, INT], BOOL]
     syms["h"] = ["Fun", [REAL], REAL]
+    syms["P"] = ["Fun", [INT, BOOL], BOOL]
+    syms["Bm"] = bp.ARRAY(INT, BOOL)
     return syms
 
 
